@@ -172,7 +172,15 @@ func vfRegister[C any](prop string, gen func(c *vfCtx, emit func(C)), run func(c
 			c.curCase = cs
 			c.count("evaluations", 1)
 			c.count("traces", 1)
-			run(c, cs)
+			func() {
+				defer func() {
+					if r := recover(); r != nil {
+						b, _ := json.Marshal(cs)
+						c.harnessErr("panic while running case %s: %v", b, r)
+					}
+				}()
+				run(c, cs)
+			}()
 			c.sample(cs)
 		})
 	}
